@@ -136,6 +136,8 @@ def run(prog: Program, roots=None, prop="C08") -> Results:
     if prop == "C08":
         refusal_guards(prog, res)
         fallback_handlers(prog, res, closure)
+        from sa.rules.c05 import callee_head_acceptance
+        callee_head_acceptance(prog, res, "R-C08-5", res.rules["R-C08-5"])
         from sa.defassign import maybe_unbound
         r7 = res.rule("R-C08-7", "no implicit UnboundLocalError in the edit closure: every read of a local is preceded by an assignment "
                       "on every path (only KeyError/ValueError may leave a rejected edit)", floor=40)
